@@ -117,7 +117,7 @@ def parseScenario (j : Json) : Option Parsed := do
   let req : Req := { method := method, path := path, rawQuery := rawQuery, query := parseQuery rawQuery,
                      protoMajor := natField rq "major", headers := headers, contentLength := intField rq "cl" }
   let chunks := (strList rq "body").filterMap fromHex
-  let src : Source := { chunks := chunks, ending := if strField rq "bodyEnd" == "unexpected" then .unexpected else .eof }
+  let src : Source := { chunks := chunks, ending := if strField rq "bodyEnd" == "unexpected" then .unexpected else if strField rq "bodyEnd" == "eofdata" then .eofWithData else .eof }
   let script := (arrField j "script").toList.filterMap fun op =>
     match op with
     | .arr cells =>
